@@ -21,7 +21,9 @@ Inductive cop := CW (b : batch) | CD (m : N) | CN.       (* write, drop measurem
 Record ctie := mkct { ct_eps : list (list nat); ct_nj : nat; ct_gone : list nat }.
 Record cimage := mkci { ci_acked : nat; ci_inflight : option nat; ci_post : list cop; ci_chain : list (list (list nat));
                         ci_tie : option ctie; ci_obs : list (key * Z) }.
-Record ccase := mkcc { cc_nwal : nat; cc_ops : list cop; cc_xops : list (list xop); cc_images : list cimage }.
+(* a raw log file of a crash image: its bytes, the number of records completely appended, the bytes of a torn append at its end *)
+Record cwal := mkcw { cw_bytes : list N; cw_nrec : nat; cw_torn : nat }.
+Record ccase := mkcc { cc_nwal : nat; cc_ops : list cop; cc_xops : list (list xop); cc_images : list cimage; cc_wals : list cwal }.
 
 Definition lookup (obs : list (key * Z)) (k : key) : option Z :=
   match find (fun e => key_eqb (fst e) k) obs with Some e => Some (snd e) | None => None end.
@@ -92,3 +94,20 @@ Definition image_code (n : nat) (ops : list cop) (xops : list (list xop)) (im : 
 
 Definition case_codes (c : ccase) : list nat := map (image_code (cc_nwal c) (cc_ops c) (cc_xops c)) (cc_images c).
 Definition all_codes (cs : list ccase) : list (list nat) := map case_codes cs.
+
+(* ---- framing tie: the bytes the real WAL wrote, read with the model's reader (Model.v read_frame: [type:1][len:4 BE][payload]):
+   exactly the tracked number of complete records, every one of the line-protocol type, and what is left at the end is
+   exactly the torn append, which the reader refuses ---- *)
+Fixpoint frames (fuel : nat) (bs : list N) : list N * nat :=
+  match fuel with
+  | 0 => ([], length bs)
+  | S f => match read_frame bs with
+           | Record t _ rest => let r := frames f rest in (t :: fst r, snd r)
+           | Incomplete => ([], length bs)
+           end
+  end.
+Definition wal_ok (w : cwal) : bool :=
+  let r := frames (S (cw_nrec w)) (cw_bytes w) in
+  Nat.eqb (length (fst r)) (cw_nrec w) && forallb (N.eqb 1) (fst r) && Nat.eqb (snd r) (cw_torn w).
+Definition frame_fails (c : ccase) : nat := length (filter (fun w => negb (wal_ok w)) (cc_wals c)).
+Definition all_frame_fails (cs : list ccase) : list nat := map frame_fails cs.
